@@ -1712,7 +1712,7 @@ def process_template(tpl_path: str, repo: str, variant: dict | None = None) -> U
                 cur = None
                 j += 1
                 continue
-            if dm2 and dm2.group(1) in ("sig", "contract", "loop", "closure", "before", "after", "wrap", "check-before", "check-after"):
+            if dm2 and dm2.group(1) in ("sig", "contract", "loop", "closure", "before", "after", "wrap", "check-before", "check-after", "check-before-stmt", "before-stmt"):
                 cur = [dm2.group(1), dm2.group(2).strip(), j + 2, []]
                 if dm2.group(1) == "sig":
                     cur[3].append(dm2.group(2))
@@ -1992,6 +1992,16 @@ def _gen_function(kv, sections, repo, res: UnitResult, variant) -> list:
             is_check = sname.startswith("check-")
             inserts.append(("before-tail", None, _label_lines(slines, sline, "contract" if is_check else "hint",
                                                               "%s.%s" % (fid, "check" if is_check else "hint")), "optional" in sarg.split()))
+        elif sname in ("check-before-stmt", "before-stmt"):
+            # anchor = k-th match of a (multi-line) regex in the body; the lines are inserted before the STATEMENT that contains
+            # the match (so the anchor may sit in the middle of a method chain spread over several lines)
+            mm = re.match(r"/((?:[^/\\]|\\.)*)/\s*(\d+)?\s*(optional)?", sarg)
+            if not mm:
+                raise ExtractError("template: bad anchor %r" % sarg)
+            is_check = sname.startswith("check-")
+            inserts.append(("before-stmt", (_ren_re(mm.group(1).replace("\\/", "/")), int(mm.group(2) or 1)),
+                            _label_lines(slines, sline, "contract" if is_check else "hint",
+                                         "%s.%s" % (fid, "check" if is_check else "hint")), bool(mm.group(3))))
         elif sname in ("before", "after", "check-before", "check-after"):
             mm = re.match(r"/((?:[^/\\]|\\.)*)/\s*(\d+)?\s*(optional)?", sarg)
             if not mm:
@@ -2038,6 +2048,34 @@ def _gen_function(kv, sections, repo, res: UnitResult, variant) -> list:
                 lab = lab + [GenLine("{", ("gen", "closure-block"))]
                 ins_at.append((btoks[bs[be]].end, [GenLine("}", ("gen", "closure-block"))]))
             ins_at.append((btoks[bs[bsx]].start, lab))
+        elif kind == "before-stmt":
+            ms_ = list(re.finditer(arg[0], body_now))
+            if len(ms_) < arg[1]:
+                if optional:
+                    log.setdefault("optional_anchor_absent", []).append("before-stmt %s" % (arg,))
+                    continue
+                raise ExtractError("anchor lost: /%s/ (#%d) in %s" % (arg[0], arg[1], fid))
+            mpos = ms_[arg[1] - 1].start()
+            ti = max((ix for ix, t in enumerate(btoks) if t.start <= mpos and t.kind not in ("ws", "comment")), default=None)
+            if ti is None:
+                raise ExtractError("anchor lost: /%s/ in %s" % (arg[0], fid))
+            # walk back to the token that ends the previous statement / opens the enclosing block
+            j = ti
+            while j >= 0:
+                t = btoks[j]
+                if t.kind in ("ws", "comment"):
+                    j -= 1; continue
+                if t.kind == "punct" and t.text in ")]}" and j != ti:
+                    if t.text == "}":
+                        break
+                    j = bm[j] - 1; continue
+                if t.kind == "punct" and t.text in ";{" and j != ti:
+                    break
+                j -= 1
+            nxt = next((ix for ix in range(j + 1, len(btoks)) if btoks[ix].kind not in ("ws", "comment")), None)
+            toff = btoks[nxt].start
+            ls = body_now.rfind("\n", 0, toff) + 1
+            ins_at.append((ls if not body_now[ls:toff].strip() else toff, lab))
         elif kind == "before-tail":
             o0 = next((ix for ix, t in enumerate(btoks) if t.kind == "punct" and t.text == "{"), None)
             if o0 is None:
